@@ -78,6 +78,43 @@ func init() {
 	})
 }
 
+// C17 / C02: which fields of the multiplexer configuration the code assigns on each end.  Everything else is the
+// library's default — in particular the keep-alive (10 s interval, 30 s time-out), against which the slowest carrier
+// the tunnel supports still gets a full frame across.
+func init() {
+	extractors = append(extractors, func(o *out) {
+		b := o.w("C17.lean")
+		for _, site := range []struct{ file, recv, fn, name string }{
+			{"internal/server/communicator.go", "ConnectionHandler", "HandleConnection", "smuxConfigAssignedServer"},
+			{"internal/client/upstream/upstream.go", "Upstreams", "creteSession", "smuxConfigAssignedClient"},
+		} {
+			fd := findFunc(parse(site.file), site.recv, site.fn)
+			if fd == nil {
+				fail("%s: %s not found", site.file, site.fn)
+				continue
+			}
+			var fields []string
+			ast.Inspect(fd.Body, func(n ast.Node) bool {
+				if as, ok := n.(*ast.AssignStmt); ok {
+					for _, l := range as.Lhs {
+						if se, ok := l.(*ast.SelectorExpr); ok {
+							if id, ok := se.X.(*ast.Ident); ok && id.Name == "config" {
+								fields = append(fields, se.Sel.Name)
+							}
+						}
+					}
+				}
+				return true
+			})
+			q := make([]string, len(fields))
+			for i, f := range fields {
+				q[i] = fmt.Sprintf("%q", f)
+			}
+			fmt.Fprintf(b, "/-- %s %s: fields of the multiplexer configuration the code assigns (the rest are smux.DefaultConfig()) -/\ndef %s : List String := [%s]\n\n", site.file, site.fn, site.name, strings.Join(q, ", "))
+		}
+	})
+}
+
 // goFiles lists the non-test Go files of a directory of the repository (paths relative to its root).
 func goFiles(dir string) []string {
 	ents, err := os.ReadDir(filepath.Join(repo, dir))
